@@ -96,9 +96,30 @@ func (s *scripted) newValue() (int32, []byte) {
 	return id, []byte(str)
 }
 
-func (s *scripted) idOf(b []byte, ok bool) int32 {
+// newEmptyValue: a Set of an empty value is a write like any other (found, zero bytes) and differs
+// from a Delete; it gets an id of its own in the model although its bytes do not name it.
+func (s *scripted) newEmptyValue() (int32, []byte) {
+	s.nextVal++
+	id := s.nextVal
+	s.valStr[id] = ""
+	s.stat["empty_value_writes"]++
+	if id%2 == 0 {
+		return id, nil
+	}
+	return id, []byte{}
+}
+
+// idOf: want is the id the model predicts; it only serves to name an empty value (the driver is
+// exact, an empty value where the model predicts another empty value is that value).
+func (s *scripted) idOf(b []byte, ok bool, want int32) int32 {
 	if !ok {
 		return 0
+	}
+	if len(b) == 0 {
+		if str, known := s.valStr[want]; known && want > 0 && str == "" {
+			return want
+		}
+		return -3
 	}
 	if id, found := s.valID[string(b)]; found {
 		return id
@@ -122,7 +143,13 @@ func (s *scripted) get(t *sTxn, k int) {
 	at := s.tick()
 	got, ok := t.tx.Get(s.keys[k])
 	s.tick()
-	id := s.idOf(got, ok)
+	var modelWant int32
+	if v, has := t.buf[k]; has && t.update {
+		modelWant = v
+	} else {
+		modelWant = s.readAt(k, t.snap)
+	}
+	id := s.idOf(got, ok, modelWant)
 	s.stat["gets"]++
 	if !t.finished {
 		if mark, ts := s.db.VerifReadMark(), t.tx.VerifReadTs(); mark > ts {
@@ -182,11 +209,31 @@ func (s *scripted) get(t *sTxn, k int) {
 func (s *scripted) write(t *sTxn, k int, del bool) {
 	var err error
 	var id int32
+	empty := false
+	if prev, has := t.buf[k]; has && t.update && !t.finished {
+		// a second write to a key of this transaction: Delete over an empty value, an empty value
+		// over a Delete and the same kind twice are the interesting successions
+		prevEmpty := prev > 0 && s.valStr[prev] == ""
+		switch x := s.r.Intn(4); {
+		case prev == 0 && x < 2:
+			del, empty = false, true
+		case prevEmpty && x < 2:
+			del = true
+		case prevEmpty && x == 2:
+			del, empty = false, true
+		}
+	} else if !del && s.r.Intn(10) == 0 {
+		empty = true
+	}
 	if del {
 		err = t.tx.Delete(s.keys[k])
 	} else {
 		var v []byte
-		id, v = s.newValue()
+		if empty {
+			id, v = s.newEmptyValue()
+		} else {
+			id, v = s.newValue()
+		}
 		err = t.tx.Set(s.keys[k], v)
 	}
 	s.logf("T%d.Write(k%d:=%d)=%v", t.rec.ID, k, id, err)
@@ -338,12 +385,19 @@ func (s *scripted) closure(update bool) {
 				}
 			}
 			if update && s.r.Intn(2) == 0 {
-				id, v := s.newValue()
+				var id int32
+				var v []byte
 				var err error
-				if s.r.Intn(5) == 0 {
+				prev, has := buf[k]
+				switch x := s.r.Intn(10); {
+				case x < 2 && !(has && prev == 0), has && prev > 0 && s.valStr[prev] == "" && x < 6:
 					id = 0
 					err = tx.Delete(s.keys[k])
-				} else {
+				case x == 2, has && prev == 0 && x < 7:
+					id, v = s.newEmptyValue()
+					err = tx.Set(s.keys[k], v)
+				default:
+					id, v = s.newValue()
 					err = tx.Set(s.keys[k], v)
 				}
 				if err != nil {
@@ -360,11 +414,11 @@ func (s *scripted) closure(update bool) {
 			} else {
 				at := s.tick()
 				got, ok := tx.Get(s.keys[k])
-				id := s.idOf(got, ok)
 				want, own := s.readAt(k, snap), false
 				if v, has := buf[k]; has {
 					want, own = v, true
 				}
+				id := s.idOf(got, ok, want)
 				rec.Reads = append(rec.Reads, hRead{K: k, V: id, Own: own, At: at})
 				s.stat["gets"]++
 				if id != want {
